@@ -415,6 +415,14 @@ func (r *c04Run) restart(mode string, wipe, graceful bool) string {
 			return
 		}
 		r.applyKnobs()
+		if mode == "fast" || mode == "full" {
+			// a store that recovery rebuilt must pass its own start-up
+			// check (keepGoing, set in the simulated configuration, only
+			// logs it)
+			if complaint := blobpacked.VerifCheckLargeIntegrity(r.s.sto); complaint != "" {
+				msg = "after recovery from the zips the store's own start-up integrity check fails (a start without keepGoing would refuse): " + complaint
+			}
+		}
 	})
 	if herr != nil {
 		return "restart never finished"
